@@ -1157,18 +1157,27 @@ def compute_z_zprime_Q2d(cm0, ams, bms, u, t):
         # alloc pressure inside this func; need care since len of any coef vector
         # may be unequal
 
-        if len(a_coef) == 0:
+        if len(a_coef) == 0 and len(b_coef) == 0:
             continue
 
         # can't use "as" => as keyword
+        # either family (cosine or sine) may be empty on its own for this m
         Na = len(a_coef) - 1
         Nb = len(b_coef) - 1
-        alphas_a = clenshaw_q2d_der(a_coef, m, usq)
-        alphas_b = clenshaw_q2d_der(b_coef, m, usq)
-        Sa = 0.5 * alphas_a[0][0]
-        Sb = 0.5 * alphas_b[0][0]
-        Sprimea = 0.5 * alphas_a[1][0]
-        Sprimeb = 0.5 * alphas_b[1][0]
+        if Na >= 0:
+            alphas_a = clenshaw_q2d_der(a_coef, m, usq)
+            Sa = 0.5 * alphas_a[0][0]
+            Sprimea = 0.5 * alphas_a[1][0]
+        else:
+            Sa = np.zeros_like(u)
+            Sprimea = np.zeros_like(u)
+        if Nb >= 0:
+            alphas_b = clenshaw_q2d_der(b_coef, m, usq)
+            Sb = 0.5 * alphas_b[0][0]
+            Sprimeb = 0.5 * alphas_b[1][0]
+        else:
+            Sb = np.zeros_like(u)
+            Sprimeb = np.zeros_like(u)
         if m == 1 and Na > 2:
             Sa -= 2/5 * alphas_a[0][3]
             # derivative is same, but instead of 0 index, index=j==1
@@ -1281,8 +1290,9 @@ def Q2d_nm_c_to_a_b(nms, coefs):
             if bc[k][i] is None:
                 bc[k][i] = 0
 
-    max_m_a = max(list(ac.keys()))
-    max_m_b = max(list(bc.keys()))
+    # either family may be absent entirely (cosine-only, sine-only or purely rotationally symmetric input)
+    max_m_a = max(list(ac.keys()), default=0)
+    max_m_b = max(list(bc.keys()), default=0)
     max_m = max(max_m_a, max_m_b)
     ac_ret = []
     bc_ret = []
